@@ -2,7 +2,7 @@
 import os
 import sys
 
-from bsv.dtab import TOP, AnalysisBroken, Interp, Model, Opt, Pos, Struct, Sym, base_type, int_conv, sizeof_type
+from bsv.dtab import INT_TYPES, TOP, AnalysisBroken, Interp, Model, Opt, Pos, Struct, Sym, base_type, int_conv, sizeof_type
 from bsv.facts import VERIF, strip, strip_targs
 
 sys.path.insert(0, VERIF)
@@ -486,9 +486,92 @@ def enum_values(prog):
     return vals
 
 
+class TabInterp(Interp):
+    """Interp that knows how wide a header-declared length is: a value c + m*LEN, with LEN read from a length field of nb bytes on this
+    path, needs 8*nb bits (one more when something is added to it); storing it in a narrower integer object wraps for long payloads."""
+
+    def _check_width(self, fr, v, t, where):
+        l = ReaderModel.lin(v)
+        if l is None or l[1] < 1 or isinstance(v, int):
+            return
+        info = INT_TYPES.get(base_type(t))
+        if not info:
+            return
+        nbs = [a[1] for a in self.path.actions if a[0] == 'READLEN' and isinstance(a[1], int)]
+        if not nbs:
+            return
+        need = 8 * max(nbs) + (1 if (l[0] > 0 or l[1] > 1) else 0)
+        if info[0] < need:
+            self.act('NARROW', base_type(t), info[0], need, fr.f.loc(where))
+
+    def coerce(self, v, t):
+        if self._cur is not None:
+            self._check_width(self._cur[0], v, t, self._cur[1])
+        return Interp.coerce(self, v, t)
+
+    _cur = None
+
+    def exec_decl(self, fr, n, depth):
+        self._cur = (fr, n)
+        try:
+            return Interp.exec_decl(self, fr, n, depth)
+        finally:
+            self._cur = None
+
+    def ev_binary(self, fr, n, depth):
+        if n.get('op') == '=' or n['k'] == 'CompoundAssignOperator':
+            prev = self._cur
+            self._cur = (fr, n)
+            try:
+                r = Interp.ev_binary(self, fr, n, depth)
+            finally:
+                self._cur = prev
+            if n['k'] == 'CompoundAssignOperator':
+                self._check_width(fr, r, fr.f.type(n['c'][0]), n)
+            return r
+        return Interp.ev_binary(self, fr, n, depth)
+
+
+def narrow_findings(prog, rep, rule, which=('skip', 'tables')):
+    """no length taken from the input is kept in an integer object too narrow for it (both reader copies, every method, every first byte)"""
+    seen = {}
+    n_paths = 0
+    srcs = []
+    if 'skip' in which:
+        ST = skip_tables(prog)
+        for kind in READERS:
+            f, per = ST[kind]
+            srcs.append((kind, 'SkipValueImpl', f, per))
+    if 'tables' in which:
+        T = tables(prog)
+        for kind in READERS:
+            for mkey, (f, fam, per) in T[kind].items():
+                srcs.append((kind, short_method(*mkey), f, per))
+    for kind, name, f, per in srcs:
+        rep.touch(f)
+        bad = {}
+        for b in range(256):
+            for p in per[b]:
+                n_paths += 1
+                for a in p.actions:
+                    if a[0] == 'NARROW':
+                        e = bad.setdefault((a[1], a[2]), [0, a[4], []])
+                        e[0] = max(e[0], a[3])
+                        e[2].append(b)
+        if bad:
+            for (t, bits), (need, where, bs) in sorted(bad.items()):
+                rep.finding(rule, '%s|%s|length kept in %s' % (kind, name, t), where,
+                            '%s reader %s: a length read from a length field of up to %d byte(s) (plus what is added to it) is kept in an object of '
+                            'type %s (%d bits, up to %d needed) for first byte(s) %s: it wraps for long payloads, so the reader leaves the value in the middle'
+                            % (kind, name, (need - 1) // 8 if need % 8 else need // 8, t, bits, need, fmt_bytes(sorted(set(bs)))), func=f.id, count=len(set(bs)))
+        else:
+            rep.ok(rule, '%s|%s' % (kind, name))
+    return n_paths
+
+
 def run_method(prog, f, kind, b, table):
     model = ReaderModel(prog, b, table, kind)
-    it = Interp(prog, model)
+    it = TabInterp(prog, model)
 
     def init(it_, fr):
         for p in f.params:
